@@ -1,5 +1,404 @@
 package c18
 
-const traceChildEnv = "VERIF_C18_TRACE_CHILD"
+// "Rejected with an error before any file-system access": a snapshot cannot see a
+// pure read (stat, open for reading, directory listing). This file runs batches
+// of names that must be rejected in a child process (this test binary, re-executed)
+// under `strace -f -y -e trace=%file` and requires that, while a rejected call
+// runs, no system call names a path that lies inside the sandbox but outside the
+// component's root.
 
-func traceChildMain() int { return 0 }
+import (
+	"encoding/json"
+	"fmt"
+	"os"
+	"os/exec"
+	"path/filepath"
+	"regexp"
+	"strconv"
+	"strings"
+	"testing"
+
+	"github.com/safing/portbase/database/query"
+	"github.com/safing/portbase/database/record"
+	"github.com/safing/portbase/database/storage"
+	"github.com/safing/portbase/formats/dsd"
+	"pgregory.net/rapid"
+
+	"verifharness/internal/stats"
+)
+
+const (
+	traceChildEnv = "VERIF_C18_TRACE_CHILD"
+	markerPrefix  = "/c18-trace-marker/"
+)
+
+type traceItem struct {
+	Comp    string     `json:"comp"` // fstree | ds | scan | zip
+	Op      int        `json:"op"`
+	Arg     string     `json:"arg"`
+	Perm    uint32     `json:"perm"`
+	Entries []zipEntry `json:"entries,omitempty"`
+}
+
+type traceBatch struct {
+	Root   string      `json:"root"`
+	Items  []traceItem `json:"items"`
+	Result string      `json:"result"` // file the child writes []bool (call returned an error) to
+}
+
+// ---------------------------------------------------------------- child
+
+func marker(kind string, i int) {
+	_, _ = os.Lstat(markerPrefix + kind + "/" + strconv.Itoa(i))
+}
+
+// traceChildMain runs the batch named by the environment variable. Everything
+// an item needs is set up before its begin marker.
+func traceChildMain() int {
+	data, err := os.ReadFile(os.Getenv(traceChildEnv))
+	if err != nil {
+		fmt.Fprintln(os.Stderr, "trace child:", err)
+		return 3
+	}
+	var b traceBatch
+	if err := json.Unmarshal(data, &b); err != nil {
+		fmt.Fprintln(os.Stderr, "trace child:", err)
+		return 3
+	}
+	if err := os.Chdir("/"); err != nil {
+		return 3
+	}
+	t := childFataler{}
+	sb := &sandbox{root: b.Root, top: b.Root}
+	results := make([]bool, len(b.Items))
+	var st storage.Interface
+	for i, it := range b.Items {
+		var run func() error
+		switch it.Comp {
+		case "fstree":
+			if st == nil {
+				st = openFstree(t, sb)
+			}
+			run = func() error { return childFstree(st, it.Op, it.Arg) }
+		case "ds":
+			run = func() error { return dsCall(b.Root, it.Op, it.Arg, os.FileMode(it.Perm)) }
+		case "scan":
+			reg := newRegistry(t, sb)
+			run = func() error { return reg.ScanStorage(it.Arg) }
+		case "zip":
+			reg := newRegistry(t, sb)
+			reg.AutoUnpack = []string{zipIdentifier}
+			if err := reg.AddResource(zipIdentifier, zipVersion, nil, true, false, false); err != nil {
+				return 3
+			}
+			reg.SelectVersions()
+			run = reg.UnpackResources
+		default:
+			return 3
+		}
+		marker("begin", i)
+		err := run()
+		marker("end", i)
+		results[i] = err != nil
+	}
+	out, _ := json.Marshal(results)
+	if err := os.WriteFile(b.Result, out, 0o644); err != nil {
+		return 3
+	}
+	return 0
+}
+
+type childFataler struct{}
+
+func (childFataler) Fatalf(format string, args ...any) {
+	fmt.Fprintf(os.Stderr, "trace child: "+format+"\n", args...)
+	os.Exit(3)
+}
+
+func childFstree(st storage.Interface, op int, key string) error {
+	switch op {
+	case opPut:
+		w, err := record.NewWrapper("db:"+key, nil, dsd.RAW, []byte("PUT-PAYLOAD"))
+		if err != nil {
+			return nil
+		}
+		w.UpdateMeta()
+		_, err = st.Put(w)
+		return err
+	case opGet:
+		_, err := st.Get(key)
+		return err
+	case opGetMeta:
+		_, err := st.(storage.MetaHandler).GetMeta(key)
+		return err
+	case opDelete:
+		return st.Delete(key)
+	default:
+		it, err := st.Query(query.New("db:"+key), true, true)
+		if it != nil {
+			for range it.Next { //nolint:revive
+			}
+		}
+		return err
+	}
+}
+
+// ---------------------------------------------------------------- parent
+
+var (
+	quotedRe = regexp.MustCompile(`(?:(?:AT_FDCWD|\d+)<((?:[^>\\]|\\.)*)>, )?"((?:[^"\\]|\\.)*)"`)
+	fdPathRe = regexp.MustCompile(`\d+<(/(?:[^>\\]|\\.)*)>`)
+)
+
+func unescape(s string) string {
+	if !strings.Contains(s, `\`) {
+		return s
+	}
+	if u, err := strconv.Unquote(`"` + s + `"`); err == nil {
+		return u
+	}
+	return s
+}
+
+// pathsOfLine extracts every path a strace line names: quoted arguments
+// (relative ones resolved against the annotated directory descriptor, else
+// against "/", the child's working directory) and annotated descriptors.
+func pathsOfLine(line string) []string {
+	var out []string
+	for _, m := range quotedRe.FindAllStringSubmatch(line, -1) {
+		p := unescape(m[2])
+		if p == "" {
+			continue
+		}
+		if !strings.HasPrefix(p, "/") {
+			base := "/"
+			if m[1] != "" {
+				base = unescape(m[1])
+			}
+			p = filepath.Join(base, p)
+		}
+		out = append(out, filepath.Clean(p))
+	}
+	for _, m := range fdPathRe.FindAllStringSubmatch(line, -1) {
+		out = append(out, filepath.Clean(unescape(m[1])))
+	}
+	return out
+}
+
+// offending reports whether path p lies in the sandbox but outside root (ancestors of root excepted).
+func (sb *sandbox) offending(p string) bool {
+	if p != sb.top && !strings.HasPrefix(p, sb.top+sep) {
+		return false
+	}
+	if p == sb.root || strings.HasPrefix(p, sb.root+sep) {
+		return false
+	}
+	if strings.HasPrefix(sb.root, p+sep) {
+		return false // an ancestor of the root
+	}
+	return true
+}
+
+// runTraced executes the batch in a traced child and returns, per item, the offending trace lines.
+func runTraced(t fataler, sb *sandbox, items []traceItem) (errs []bool, offending map[int][]string, nlines int) {
+	if _, err := exec.LookPath("strace"); err != nil {
+		t.Fatalf("harness: strace not installed: %v", err)
+	}
+	dir, err := os.MkdirTemp("/dev/shm", "c18-trace-")
+	if err != nil {
+		t.Fatalf("harness: %v", err)
+	}
+	defer os.RemoveAll(dir)
+	b := traceBatch{Root: sb.root, Items: items, Result: filepath.Join(dir, "result.json")}
+	data, _ := json.Marshal(b)
+	batchFile := filepath.Join(dir, "batch.json")
+	if err := os.WriteFile(batchFile, data, 0o644); err != nil {
+		t.Fatalf("harness: %v", err)
+	}
+	exe, err := os.Executable()
+	if err != nil {
+		t.Fatalf("harness: %v", err)
+	}
+	traceFile := filepath.Join(dir, "trace.txt")
+	cmd := exec.Command("strace", "-f", "-qq", "-y", "-s", "8192", "-e", "trace=%file", "-o", traceFile, exe, "-test.run", "^$")
+	cmd.Env = append(os.Environ(), traceChildEnv+"="+batchFile, "VERIF_STATS_OUT=")
+	cmd.Dir = "/"
+	if out, err := cmd.CombinedOutput(); err != nil {
+		t.Fatalf("harness: traced child failed: %v\n%s", err, out)
+	}
+	res, err := os.ReadFile(b.Result)
+	if err != nil || json.Unmarshal(res, &errs) != nil || len(errs) != len(items) {
+		t.Fatalf("harness: traced child wrote no usable result (%v)", err)
+	}
+	trace, err := os.ReadFile(traceFile)
+	if err != nil {
+		t.Fatalf("harness: %v", err)
+	}
+	offending = map[int][]string{}
+	cur := -1
+	seenBegin, seenEnd := 0, 0
+	for _, line := range strings.Split(string(trace), "\n") {
+		if i := strings.Index(line, markerPrefix); i >= 0 {
+			rest := line[i+len(markerPrefix):]
+			if strings.Contains(line, "resumed>") {
+				continue
+			}
+			switch {
+			case strings.HasPrefix(rest, "begin/"):
+				n, _ := strconv.Atoi(strings.SplitN(rest[len("begin/"):], `"`, 2)[0])
+				cur = n
+				seenBegin++
+			case strings.HasPrefix(rest, "end/"):
+				cur = -1
+				seenEnd++
+			}
+			continue
+		}
+		if cur < 0 {
+			continue
+		}
+		nlines++
+		for _, p := range pathsOfLine(line) {
+			if sb.offending(p) {
+				offending[cur] = append(offending[cur], strings.ReplaceAll(line, sb.top, "<top>"))
+				break
+			}
+		}
+	}
+	if seenBegin != len(items) || seenEnd != len(items) {
+		t.Fatalf("harness: trace holds %d begin and %d end markers for %d items", seenBegin, seenEnd, len(items))
+	}
+	return errs, offending, nlines
+}
+
+func (it traceItem) describe(sb *sandbox) string {
+	arg := strings.ReplaceAll(it.Arg, sb.top, "<top>")
+	switch it.Comp {
+	case "fstree":
+		return fmt.Sprintf("fstree(root=%s).%s(%q)", sb.rel(sb.root), fstreeOpNames[it.Op], arg)
+	case "ds":
+		return fmt.Sprintf("DirStructure(root=%s).%s(%q)", sb.rel(sb.root), dsOpNames[it.Op], arg)
+	case "scan":
+		return fmt.Sprintf("ResourceRegistry(storage=%s).ScanStorage(%q)", sb.rel(sb.root), arg)
+	default:
+		return fmt.Sprintf("UnpackResources(storage=%s, zip entries %+v)", sb.rel(sb.root), it.Entries)
+	}
+}
+
+// checkTraced runs the items (all of which must be rejected) and fails on any file access outside the root.
+func checkTraced(t fataler, sb *sandbox, items []traceItem) int {
+	before := takeSnapshot(t, sb.top)
+	errs, offending, nlines := runTraced(t, sb, items)
+	for i, it := range items {
+		if !errs[i] {
+			t.Fatalf("%s returned no error although the name escapes the root (traced child)", it.describe(sb))
+		}
+		if lines := offending[i]; len(lines) > 0 {
+			t.Fatalf("%s: the name escapes the root and must be rejected before any file-system access, but the call touched paths outside the root:\n  %s", it.describe(sb), strings.Join(lines, "\n  "))
+		}
+	}
+	// the registry set-up inside the child recreates <root>/tmp: below the root; nothing else may differ
+	if d := sb.diff(before, takeSnapshot(t, sb.top), sb.strictlyUnderRoot); len(d) > 0 {
+		t.Fatalf("traced batch of rejected names changed the sandbox outside the root: %s", strings.Join(d, "; "))
+	}
+	return nlines
+}
+
+// genRejected draws an input of some component that must be rejected.
+func genRejected(t *rapid.T, sb *sandbox, allowZip bool) (traceItem, bool) {
+	kinds := []string{"fstree", "fstree", "ds", "ds", "scan"}
+	if allowZip {
+		kinds = append(kinds, "zip")
+	}
+	switch comp := rapid.SampledFrom(kinds).Draw(t, "component"); comp {
+	case "fstree":
+		op := rapid.IntRange(0, numFstreeOps-1).Draw(t, "op")
+		key := genRelName(t, sb)
+		if !fstreeMustReject(locate(sb.root, filepath.Join(sb.root, key)), op) {
+			return traceItem{}, false
+		}
+		return traceItem{Comp: comp, Op: op, Arg: key}, true
+	case "ds":
+		op := rapid.IntRange(0, numDsOps-1).Draw(t, "op")
+		var arg string
+		if op == dsAbs {
+			arg = genAbsPath(t, sb)
+		} else {
+			arg = genRelName(t, sb)
+		}
+		if locate(sb.root, dsTarget(sb.root, op, arg)) != escaping {
+			return traceItem{}, false
+		}
+		return traceItem{Comp: comp, Op: op, Arg: arg, Perm: uint32(rapid.SampledFrom(perms).Draw(t, "perm"))}, true
+	case "scan":
+		arg := genAbsPath(t, sb)
+		if locate(sb.root, arg) != escaping {
+			return traceItem{}, false
+		}
+		return traceItem{Comp: comp, Arg: arg}, true
+	default:
+		_, tmpDir, _ := zipPaths(sb.root)
+		entries := []zipEntry{{Name: "ok"}, {Name: genRelName(t, sb), Dir: rapid.Bool().Draw(t, "dirEntry")}}
+		if locate(tmpDir, filepath.Join(tmpDir, entries[1].Name)) != escaping {
+			return traceItem{}, false
+		}
+		return traceItem{Comp: comp, Entries: entries}, true
+	}
+}
+
+func TestPropTraced(t *testing.T) {
+	rapid.Check(t, func(t *rapid.T) {
+		sb := drawSandbox(t, true)
+		defer sb.remove()
+		want := rapid.IntRange(8, 40).Draw(t, "batch")
+		var items []traceItem
+		haveZip := false
+		for attempts := 0; len(items) < want && attempts < 6*want; attempts++ {
+			it, ok := genRejected(t, sb, !haveZip)
+			if !ok {
+				continue
+			}
+			if it.Comp == "zip" {
+				haveZip = true
+				archive, _, _ := zipPaths(sb.root)
+				mustWrite(t, archive, buildZip(t, it.Entries))
+			}
+			items = append(items, it)
+			stats.Class("traced_" + it.Comp + "_rejected_input")
+		}
+		if len(items) == 0 {
+			t.Skip("no rejected input drawn")
+		}
+		nlines := checkTraced(t, sb, items)
+		stats.ClassN("traced_file_syscalls_inside_item_windows", int64(nlines))
+		var fp strings.Builder
+		for _, it := range items {
+			fmt.Fprintf(&fp, "%s:%d:%s:%+v|", it.Comp, it.Op, strings.ReplaceAll(it.Arg, sb.top, "<top>"), it.Entries)
+		}
+		stats.Case("traced:"+sb.rootName+fp.String(), true, "traced_batches")
+		if stats.WantSample("traced") {
+			stats.Sample("traced", map[string]any{"root": sb.rel(sb.root), "items": len(items), "first": items[0].describe(sb)})
+		}
+	})
+}
+
+// TestRegTracedWitnesses runs the minimal inputs of the repaired findings under the tracer.
+func TestRegTracedWitnesses(t *testing.T) {
+	sb := regSandbox(t, 2, false)
+	archive, _, _ := zipPaths(sb.root)
+	entries := []zipEntry{{Name: "ok"}, {Name: "../../../fstree-other/canary"}}
+	mustWrite(t, archive, buildZip(t, entries))
+	items := []traceItem{
+		{Comp: "fstree", Op: opGet, Arg: "../fstree-other/canary"},
+		{Comp: "fstree", Op: opPut, Arg: "../fstree-other/evil"},
+		{Comp: "fstree", Op: opDelete, Arg: "../fstree2/canary"},
+		{Comp: "fstree", Op: opQuery, Arg: "../fstree-other"},
+		{Comp: "fstree", Op: opPut, Arg: "."},
+		{Comp: "fstree", Op: opDelete, Arg: "a/.."},
+		{Comp: "ds", Op: dsAbs, Arg: sb.root + "/x/../../y", Perm: 0o755},
+		{Comp: "ds", Op: dsRelPath, Arg: "../fstree-other/new", Perm: 0o700},
+		{Comp: "scan", Arg: sb.root + "-other"},
+		{Comp: "zip", Entries: entries},
+	}
+	checkTraced(t, sb, items)
+}
